@@ -36,6 +36,8 @@ pub enum M {
     /// a method with an `impl Trait` argument (the macro invents the type parameter), two instantiations
     GiU8,
     GiU16,
+    /// a method of a trait mocked without `api=`: no clause can ever mention it
+    N0,
     // explicit-parameter unmock form
     E0,
     // lending (C13)
@@ -44,6 +46,7 @@ pub enum M {
     LendMut,
     Lent,
     LendClone,
+    LendGuard,
     LendVia,
     LendViaMut,
     LendZ,
@@ -137,12 +140,14 @@ pub const ALL_M: &[M] = &[
     M::GmU16,
     M::GiU8,
     M::GiU16,
+    M::N0,
     M::E0,
     M::LendA,
     M::LendB,
     M::LendMut,
     M::Lent,
     M::LendClone,
+    M::LendGuard,
     M::LendVia,
     M::LendViaMut,
     M::LendZ,
@@ -205,12 +210,14 @@ impl M {
             M::GmU16 => ("GenM", "gm", false, false, false, Recv::Ref, false),
             M::GiU8 => ("GenI", "gi", false, false, false, Recv::Ref, false),
             M::GiU16 => ("GenI", "gi", false, false, false, Recv::Ref, false),
+            M::N0 => ("NoApi", "n0", false, false, true, Recv::Ref, false),
             M::E0 => ("Expl", "e0", true, false, true, Recv::Ref, false),
             M::LendA => ("Lend", "lend_a", false, false, false, Recv::Ref, false),
             M::LendB => ("Lend", "lend_b", false, false, false, Recv::Ref, false),
             M::LendMut => ("Lend", "lend_mut", false, false, false, Recv::Mut, false),
             M::Lent => ("Lend", "lent", false, false, false, Recv::Ref, false),
             M::LendClone => ("Lend", "lend_clone", false, false, false, Recv::Ref, false),
+            M::LendGuard => ("Lend", "lend_guard", false, false, false, Recv::Ref, false),
             M::LendVia => ("Lend", "lend_via", false, true, false, Recv::Ref, false),
             M::LendViaMut => ("Lend", "lend_via_mut", false, true, false, Recv::Mut, false),
             M::LendZ => ("Lend", "lend_z", false, false, false, Recv::Ref, false),
@@ -395,6 +402,9 @@ pub enum Special {
     Lent { id: u32 },
     /// each_call(_).answers(|u| u.make_ref(u.clone()))
     LendClone,
+    /// each_call(_).answers(|u, x| u.make_ref(GuardVal { clone: u.clone(), .. })): a lent value that owns
+    /// a clone and, when it is released, makes one (contained) call to Alpha::a1 through it
+    LendGuard,
     /// each_call(_).answers(|u| u.make_ref(ZTok)): a zero-sized value with a destructor
     LendZ,
     /// some_call / next_call (ordered) .returns(Tracked{id}) [.once()] [.then().answers(fresh value)]
@@ -485,6 +495,17 @@ pub enum Op {
     /// user-level panic between calls (assert failure in a test body)
     UserPanic {
         catch: bool,
+    },
+    /// clone the instance in `slot` `n` times, dropping every clone at once (scale: tens of thousands
+    /// of clones over the life of one mock)
+    CloneStorm {
+        slot: u8,
+        n: u32,
+    },
+    /// the instance in `slot` is owned by a frame that a (caught) user panic unwinds: it is dropped
+    /// while its thread is panicking - no verification, but everything it lent is released
+    UnwindDrop {
+        slot: u8,
     },
     /// a (caught) user panic whose unwinding runs a fixture destructor that builds a mock of its own,
     /// optionally clones it, and drops both - all while the thread is unwinding
